@@ -565,7 +565,7 @@ func (h *History) iterOp(t *rapid.T, ti int) {
 	n := s.model.Len()
 	op.Stop = drawInt(t, -1, n, "stop")
 	op.Re = drawInt(t, 1, 3, "re")
-	op.Btw = drawInt(t, 0, 1, "btw")
+	op.Btw = pick(t, []int{0, 0, 1, 1, 2, 3}, "btw")
 	if drawInt(t, 0, 2, "nest") == 0 {
 		op.In = pick(t, []int{-1, -1, 1, 2, 3}, "in")
 	}
